@@ -43,7 +43,7 @@ def plan(tier, seed):
     specs.extend(big.specs(tier, seed, 'C12'))
     meta = dict(
         rule=RULE,
-        require=['big_histories', 'loads_with_reordering_due', 'scenarios', 'accepted', 'refused', 'roots_checked',
+        require=['big_histories', 'huge_histories', 'loads_with_reordering_due', 'scenarios', 'accepted', 'refused', 'roots_checked',
                  'fmt_pickle', 'fmt_json', 'fmt_manager', 'roots_none',
                  'levels_false_other_order', 'json_load_order'] +
                 ['target_' + t for t in TARGETS],
